@@ -128,6 +128,8 @@ class Report:
 
     def floor(self, rule: str, what: str, count: int, minimum: int) -> None:
         self.count(f"floor:{rule}:{what}", count)
+        if count < minimum and any(o.rule == rule and o.status in ("violation", "known") for o in self.obligations):
+            return  # the anchor is there but already reported as broken: not an analysis error
         if count < minimum:
             raise AnalysisError(f"{rule}: instance floor not met for {what}: {count} < {minimum} (anchor lost)")
 
